@@ -12,7 +12,7 @@ mkdir -p /tmp/probe-verif.$$; cp /verif/known_findings.json /tmp/probe-verif.$$/
 cd /verif
 [ -x bin/goacheck ] || bin/check C18 quick >/dev/null 2>&1
 for p in "$@"; do
-  out=$(bin/goacheck -prop "$p" -tier "${TIER:-quick}" -repo "$wt" -verif /tmp/probe-verif.$$ 2>&1); rc=$?
+  out=$(${GOACHECK:-bin/goacheck} -prop "$p" -tier "${TIER:-quick}" -repo "$wt" -verif /tmp/probe-verif.$$ 2>&1); rc=$?
   echo "== $p rc=$rc"
   echo "$out" | grep -E "^(FAIL|UNDECIDED|ANCHOR-LOST|VIOLATION|BROKEN)" | cut -c1-400
 done
